@@ -46,14 +46,14 @@ fn usage() -> ! {
 
 fn default_units(prop: &str, tier: Tier) -> u64 {
     match (prop, tier) {
-        ("C12", Tier::Quick) => 12_000,
-        ("C12", Tier::Thorough) => 400_000,
-        ("C07", Tier::Quick) => 30_000,
-        ("C07", Tier::Thorough) => 1_000_000,
-        ("C09", Tier::Quick) => 1_500,
-        ("C09", Tier::Thorough) => 40_000,
-        ("C19", Tier::Quick) => 800,
-        ("C19", Tier::Thorough) => 20_000,
+        ("C12", Tier::Quick) => 40_000,
+        ("C12", Tier::Thorough) => 600_000,
+        ("C07", Tier::Quick) => 200_000,
+        ("C07", Tier::Thorough) => 3_000_000,
+        ("C09", Tier::Quick) => 800,
+        ("C09", Tier::Thorough) => 12_000,
+        ("C19", Tier::Quick) => 500,
+        ("C19", Tier::Thorough) => 8_000,
         _ => 100,
     }
 }
